@@ -174,6 +174,20 @@ func solveOne(c *Check, o dischargeOpts) *Instance {
 		inst.Result = try(solvers[0], 1500, o.seed)
 		return inst
 	}
+	// filtered attempts (only `unsat` counts), then the full query
+	quick := o.timeoutMs / 2
+	for _, att := range []struct {
+		sp    solverSpec
+		level int
+	}{{solvers[0], 0}, {solvers[0], 1}, {solvers[0], 2}, {solvers[1], 0}, {solvers[1], 2}} {
+		rf := runSolverLevel(att.sp, c, quick, o.seed, att.level)
+		rf.Solver += fmt.Sprintf("/rel%d", att.level)
+		inst.Tried = append(inst.Tried, rf)
+		if rf.Status == "unsat" {
+			inst.Result = rf
+			return inst
+		}
+	}
 	r := try(solvers[0], o.timeoutMs, o.seed)
 	if r.Status == "unsat" || r.Status == "sat" {
 		inst.Result = r
@@ -187,7 +201,19 @@ func solveOne(c *Check, o dischargeOpts) *Instance {
 			return inst
 		}
 	}
-	for _, sp := range []solverSpec{solvers[0], solvers[2]} {
+	for _, att := range []struct {
+		sp    solverSpec
+		level int
+	}{{solvers[0], 3}, {solvers[3], 0}, {solvers[3], 2}, {solvers[2], 1}} {
+		rf := runSolverLevel(att.sp, c, o.timeoutMs*2, o.seed+7, att.level)
+		rf.Solver += fmt.Sprintf("/rel%d", att.level)
+		inst.Tried = append(inst.Tried, rf)
+		if rf.Status == "unsat" {
+			inst.Result = rf
+			return inst
+		}
+	}
+	for _, sp := range []solverSpec{solvers[0], solvers[1], solvers[3]} {
 		r2 := try(sp, o.timeoutMs*3, o.seed+7)
 		if r2.Status == "unsat" || r2.Status == "sat" {
 			inst.Result = r2
